@@ -693,3 +693,30 @@ Lemma Z_laws :
   (forall a d : Z, le Z Z.ltb 0%Z d -> le Z Z.ltb a (Z.add a d)) /\
   (forall a b : Z, le Z Z.ltb a b -> Z.add a (Z.sub b a) = b).
 Proof. unfold le. repeat split; intros; lia. Qed.
+
+(** a source instruction whose expansion is empty owns no expanded index ... *)
+Lemma group_index_skips_empty : forall groups k off,
+  nth_error groups k = Some 0%nat -> group_index groups off <> k.
+Proof.
+  induction groups as [|g t IH]; intros k off Hn; [destruct k; discriminate|].
+  cbn [group_index]. destruct k as [|k]; cbn [nth_error] in Hn.
+  - inversion Hn; subst g. destruct (Nat.ltb_spec off 0); [lia|discriminate].
+  - destruct (Nat.ltb off g); [discriminate|]. intros Heq. inversion Heq as [Heq']. exact (IH _ _ Hn Heq').
+Qed.
+
+(** ... and therefore does not appear in the source-level schedule *)
+Lemma empty_expansion_absent (T : Type) (zero : T) (add sub : T -> T -> T) (ltb : T -> T -> bool) :
+  (forall a b, ltb a b = true -> ltb b a = false) ->
+  (forall a b c, le T ltb a b -> le T ltb b c -> le T ltb a c) ->
+  (forall a b, le T ltb a b -> add a (sub b a) = b) ->
+  forall groups (items : list (item T)) k,
+    (forall x, In x items -> le T ltb (item_start T x) (item_end T add x)) ->
+    (forall x, In x items -> 1 <= item_node T x <= N.of_nat (list_sum groups)) ->
+    nth_error groups k = Some 0%nat ->
+    ~ In (N.succ (N.of_nat k)) (map (item_node T) (fst (hull_schedule T zero add sub ltb groups items))).
+Proof.
+  intros H1 H2 H3 groups items k Hok Hr Hn Hin.
+  destruct (hull_schedule_spec T zero add sub ltb H1 H2 H3 groups items Hok Hr) as [_ [Hk _]].
+  apply Hk in Hin. destruct Hin as [x [_ Hg]]. unfold gidx in Hg.
+  exact (group_index_skips_empty _ _ _ Hn Hg).
+Qed.
